@@ -28,6 +28,7 @@ import KafkaVerif.Model.WriterClose
 import KafkaVerif.Model.ReaderClose
 import KafkaVerif.Model.GroupRun
 import KafkaVerif.Model.TransportConnC17
+import KafkaVerif.Model.FetcherLife
 
 namespace KV.OracleC09
 open KV KV.WriterClose
@@ -581,6 +582,50 @@ def run (trace : String) : String × Bool :=
 
 end T
 
+/-! ## Partition fetchers: deterministic replay of the RL.* hook events through Model/FetcherLife (op `ftrace`) -/
+
+namespace F
+open KV.FetcherLife
+
+def parseEv (t : String) : Option (Nat × FetcherLife.Event) :=
+  let body := (t.drop 1).toString
+  match t.take 1 |>.toString, body.splitOn ":" with
+  | "T", [f, a] => do some ((← f.toNat?), .top (← a.toNat?))
+  | "C", [f] => do some ((← f.toNat?), .cancel)
+  | "I", [f, ok] => do some ((← f.toNat?), .init (ok == "1"))
+  | "J", [f] => do some ((← f.toNat?), .iter)
+  | "R", [f, c] => do
+    let cls ← (match c with
+      | "cont" => some ReadClass.cont | "close" => some .closeBreak | "codec" => some .codecBreak
+      | "oor" => some .outOfRange | "canceled" => some .canceled | _ => none)
+    some ((← f.toNat?), .read cls)
+  | "O", [f, ok] => do some ((← f.toNat?), .offsets (ok == "1"))
+  | "M", [f] => do some ((← f.toNat?), .msg)
+  | "E", [f] => do some ((← f.toNat?), .sendErr)
+  | _, _ => none
+
+/-- every fetcher's events are replayed through `step`; after Close returned (`r.join.Wait()`) the model predicts that
+every fetcher has exited (`fetcher_terminates_after_cancel`) with its connection closed (`fetcher_exit_closes_conn`) -/
+def run (trace : String) : String × Bool := Id.run do
+  let toks := if trace == "-" then [] else (trace.splitOn ";").filter (· ≠ "")
+  match toks.mapM parseEv with
+  | none => return ("bad-trace", false)
+  | some evs =>
+    let mut states : List (Nat × FetcherLife.State) := []
+    let mut i := 0
+    for (f, e) in evs do
+      let s := ((states.find? (·.1 == f)).map (·.2)).getD {}
+      match FetcherLife.step s e with
+      | none => return (s!"reject@{i}:{toks.getD i "?"}", false)
+      | some s' => states := (f, s') :: states.filter (·.1 != f)
+      i := i + 1
+    let live := (states.filter fun x => x.2.pc != .exited).length
+    let connOpen := states.any fun x => x.2.pc == .exited && x.2.connOpen
+    -- monitor (raw events): each fetcher's last control event is an exit (a cancelled sleep or a cancelled read)
+    return (if connOpen then "exited-with-conn" else "live=0", live == 0)
+
+end F
+
 def answer (model : String) (holds : Bool) : String :=
   s!"model={model} holds={if holds then 1 else 0}"
 
@@ -597,6 +642,7 @@ def step (line : String) : String :=
     | "tclose" :: _ :: toks => answer (R.simulateT toks) (R.holdsT toks)
     | ["grun", cfgs, trace] => let (m, h) := G.run cfgs trace; answer m h
     | ["ttrace", _, trace] => let (m, h) := T.run trace; answer m h
+    | ["ftrace", _, trace] => let (m, h) := F.run trace; answer m h
     | _ => "bad-op"
   | _ => "bad-line"
 
